@@ -141,6 +141,40 @@ def extract_curves(prog, fname, field_setter):
     return out, fn
 
 
+def family_lambda(fn, pairf_val, u, r):
+    """interpret the arm of the post-switch `switch (pairf)` of ep_param_set that derives the GLV eigenvalue of a pairing
+    family from the curve parameter u: returns lambda, None if there is no arm for the family, raises Unsupported"""
+    arm = None
+    for b in fn.blocks.values():
+        t = b.term
+        if not t or t["k"] != "SwitchStmt" or t.get("c") is None:
+            continue
+        c = ir.peel(fn, t["c"])
+        if not (isinstance(c, list) and c[0] == "v" and fn.vars[c[1]]["n"] == "pairf" and fn.vars[c[1]]["k"] != "p"):
+            continue
+        for sx in b.succ:
+            if sx is None:
+                continue
+            lab = fn.blocks[sx].label
+            if lab and lab[0] == "case" and lab[1][1] == pairf_val:
+                arm = sx
+            # several labels can share a block: labels are a list of alternatives in the extractor output
+            if lab and lab[0] == "case" and len(lab) > 2:
+                for alt in lab[2:]:
+                    if isinstance(alt, list) and len(alt) > 1 and alt[1] == pairf_val:
+                        arm = sx
+    if arm is None:
+        return None
+
+    def on_call(cname, args, I):
+        if cname in ("core_get",):
+            return 0
+        return None
+    I = Interp(fn, {"lamb": u, "r": r, "t": 0, "h": 1}, on_call)
+    I.run_case(arm)
+    return I.env.get("lamb")
+
+
 def switch_returns(prog, fname, by_value=False):
     """{case name: returned constant} for `switch (X) { case A: case B: return K; ... }` functions"""
     fn = prog.get(fname)
@@ -248,6 +282,22 @@ def check_prime_curves(prog, chk, primes):
                 okc("glv", "beta^3 = 1, lambda^2 + lambda + 1 = 0 (mod r), [lambda]G = (beta*x, +-y)")
             else:
                 bad("glv", "the endomorphism constants of %s do not satisfy beta^3 = 1 != beta, lambda^2 + lambda + 1 = 0 mod r and [lambda]G = (beta*x, +-y)" % name)
+        pfv = env.get("pairf")
+        if isinstance(pfv, int) and pfv and env.get("endom") and not env.get("lamb") and pr.get("x") is not None:
+            # eigenvalue derived from the family parameter after the table switch
+            try:
+                lam = family_lambda(fn, pfv, pr["x"], r)
+            except Unsupported as e:
+                lam = None
+                chk.note("PARAM-GLV: family arm for %s not interpretable: %s" % (name, str(e)[:100]))
+            if lam is not None:
+                Q = E.mul(lam % r, G)
+                ok3 = (lam * lam + lam + 1) % r == 0 and Q is not None and pow(Q[0] * pow(G[0], -1, p) % p, 3, p) == 1 and Q[0] != G[0]
+                ok4 = (lam * lam + 1) % r == 0 and Q is not None and (Q[0] + G[0]) % p == 0
+                if ok3 or ok4:
+                    okc("glv", "family-derived lambda satisfies lambda^2 + lambda + 1 = 0 resp. lambda^2 + 1 = 0 (mod r) and [lambda]G = (beta*x, .) with beta a root of unity")
+                else:
+                    bad("glv", "the eigenvalue that ep_param_set derives from the family parameter for %s is not an eigenvalue of the endomorphism: it satisfies neither lambda^2 + lambda + 1 = 0 nor lambda^2 + 1 = 0 modulo r with [lambda]G = (beta*x, .)" % name)
         if name in embed:
             k = embed[name]
             if k and k > 1:
